@@ -1263,6 +1263,17 @@ class Executor(object):
                 out.append((nf.raise_('TypeError', node.lineno), None))
         return self.merge(out, st)
 
+    def _ref_feasible(self, v, st):
+        """can v be an object reference on this path? (decided by the feasibility check where available)"""
+        r = st.assume(Is('VRef', v))
+        if r is None:
+            return False
+        pf = getattr(self, 'path_feasible', None)
+        try:
+            return pf(r) if pf is not None else True
+        except Exception:      # noqa
+            return True
+
     def format_percent(self, fmt, arg, st):
         """'literal %s text' % arg  ->  exact concatenation where the format is a literal with plain
         %s / %d / %i / %r placeholders and the arguments are pure values; otherwise unconstrained."""
@@ -1288,7 +1299,8 @@ class Executor(object):
             if p in ('%s', '%d', '%i', '%r'):
                 v = items[k]
                 k += 1
-                if self.may_be_ref(v, st) and not (v.op == 'ctor' and v.args[0] != 'VRef'):
+                if self.may_be_ref(v, st) and not (v.op == 'ctor' and v.args[0] != 'VRef') \
+                        and self._ref_feasible(v, st):
                     out.append(const(fresh_name('fmtarg'), STR))
                 elif p == '%r':
                     out.append(py_repr(v))
